@@ -12,16 +12,16 @@ import (
 // C03 — the xz reader decodes every valid LZMA2-only .xz stream to the right bytes.
 
 type C03Case struct {
-	Kind    string   // "ops", "props", "chunks", "container", "corpus", "liblzma"
-	Fill    int      `json:",omitempty"`
-	Syms    []OpSym  `json:",omitempty"`
-	Props   [3]int   `json:",omitempty"`
-	Layout  []int    `json:",omitempty"` // chunks: split points and kinds
-	Cont    []int    `json:",omitempty"` // container parameters
-	File    string   `json:",omitempty"`
-	DictCap int      `json:",omitempty"`
-	Shape   []Seg    `json:",omitempty"`
-	Enc     []int    `json:",omitempty"`
+	Kind    string  // "ops", "props", "chunks", "container", "corpus", "liblzma"
+	Fill    int     `json:",omitempty"`
+	Syms    []OpSym `json:",omitempty"`
+	Props   [3]int  `json:",omitempty"`
+	Layout  []int   `json:",omitempty"` // chunks: split points and kinds
+	Cont    []int   `json:",omitempty"` // container parameters
+	File    string  `json:",omitempty"`
+	DictCap int     `json:",omitempty"`
+	Shape   []Seg   `json:",omitempty"`
+	Enc     []int   `json:",omitempty"`
 }
 
 func init() {
@@ -345,17 +345,17 @@ func c03Container(r *core.Run, p C03Case) {
 func runC03(r *core.Run) {
 	corpus := bindRef(r)
 	th := thorough(r)
-	r.Rule = "streams from the specification-driven generator: (a) ALL legal operation sequences of depth d over {lit x3, match(len x dist incl. the window edge), rep0 x2, shortrep, rep1-3} from the empty window and after fill prefixes 127/4095/4096/4097 (extended distances covering every distance-slot class); (b) a fixed op list x all 75 property sets; (c) every split into <=3 chunks x every legal chunk kind per position with different properties; (d) 4 checks x size fields x header padding x {0,1,2,3 blocks, empty block}; (f) chunk size fields at their limits (65536 / 65535 compressed bytes, 2 MiB / 2 MiB-1 uncompressed, raw chunks of 65536 and 1 bytes, a single-literal chunk); (e) the frozen liblzma corpus and fresh liblzma encodings x ReaderConfig.DictCap. states = LZMA coder states entered; transitions = (state, op kind), distance-slot/length classes, chunk-automaton steps; non-trivial = distinct (case family, outcome, empty?)"
+	r.Rule = "streams from the specification-driven generator: (a) ALL legal operation sequences of depth d over {lit x3, match(len x dist incl. the window edge), rep0 x2, shortrep, rep1-3} from the empty window and after fill prefixes 127/4095/4096/4097 (extended distances covering every distance-slot class); (b) a fixed op list x all 75 property sets; (c) every split into <=3 chunks x every legal chunk kind per position with different properties; (d) 4 checks x size fields x header padding x {0,1,2,3 blocks, empty block}, every legal block header size 12..1024, 127..300 blocks; (f) chunk size fields at their limits (65536 / 65535 compressed bytes, 2 MiB / 2 MiB-1 uncompressed, raw chunks of 65536 and 1 bytes, a single-literal chunk); (e) the frozen liblzma corpus and fresh liblzma encodings x ReaderConfig.DictCap. states = LZMA coder states entered; transitions = (state, op kind), distance-slot/length classes, chunk-automaton steps; non-trivial = distinct (case family, outcome, empty?)"
 	var cases []C03Case
 	def := [3]int{3, 0, 2}
 	// (a) operation sequences, enumerated inside the workers (not materialised)
 	type opJob struct {
-		fill  int
-		head  []OpSym // first symbols of the counted suffix (sharding) or state macro
-		macro bool    // head is a macro prefix (not counted in depth)
-		ext   bool
-		depth int
-		props [3]int
+		fill   int
+		head   []OpSym // first symbols of the counted suffix (sharding) or state macro
+		macro  bool    // head is a macro prefix (not counted in depth)
+		ext    bool
+		depth  int
+		props  [3]int
 		narrow []OpSym
 	}
 	var jobs []opJob
@@ -460,6 +460,15 @@ func runC03(r *core.Run) {
 					}
 				}
 			}
+		}
+	}
+	// every legal block header size 12..1024 (header padding), with and without size fields
+	for ep := 2; ep <= 253; ep++ {
+		for _, sf := range []int{0, 3} {
+			if sf == 3 && ep > 252 {
+				continue
+			}
+			cases = append(cases, C03Case{Kind: "container", Cont: []int{1, sf, ep, 2}, DictCap: 4096})
 		}
 	}
 	for _, nb := range []int{127, 128, 129, 300} {
